@@ -64,6 +64,58 @@ Proof.
   - destruct (path_eqb r q); [reflexivity | exact IH].
 Qed.
 
+(* ---------- renaming a directory: the subtree moves ---------- *)
+Lemma is_prefix_refl p : is_prefix p p = true.
+Proof. induction p as [|x p IH]; cbn; [reflexivity|]. rewrite name_eqb_refl. exact IH. Qed.
+Lemma is_prefix_app q t : is_prefix q (q ++ t) = true.
+Proof. induction q as [|x q IH]; cbn; [reflexivity|]. rewrite name_eqb_refl. exact IH. Qed.
+Lemma is_prefix_split p : forall r, is_prefix p r = true -> r = p ++ skipn (length p) r.
+Proof.
+  induction p as [|x p IH]; intros r H; [reflexivity|]. destruct r as [|y r]; [discriminate|]. cbn in H.
+  apply andb_true_iff in H. destruct H as [Hn Hp]. apply name_eqb_eq in Hn. subst. cbn. f_equal. apply IH, Hp.
+Qed.
+Lemma path_eqb_app q s t : path_eqb (q ++ s) (q ++ t) = path_eqb s t.
+Proof. induction q as [|x q IH]; cbn; [reflexivity|]. rewrite name_eqb_refl. exact IH. Qed.
+Lemma path_eqb_neq a b : a <> b -> path_eqb a b = false.
+Proof. intros H. destruct (path_eqb a b) eqn:E; [|reflexivity]. apply path_eqb_eq in E. contradiction. Qed.
+
+(* a path outside both the old and the new subtree is looked up as before *)
+Lemma rebase_outside p q a r : is_prefix p r = false -> is_prefix q r = false -> path_eqb (rebase p q a) r = path_eqb a r.
+Proof.
+  intros Hp Hq. unfold rebase. destruct (is_prefix p a) eqn:Ea; [|reflexivity].
+  rewrite (path_eqb_neq a r) by (intros ->; congruence).
+  apply path_eqb_neq. intros E. rewrite <- E, is_prefix_app in Hq. discriminate.
+Qed.
+Lemma lookup_move_outside fs p q r : is_prefix p r = false -> is_prefix q r = false -> lookup (move_tree fs p q) r = lookup fs r.
+Proof.
+  intros Hp Hq. induction fs as [|[a f] t IH]; cbn; [reflexivity|].
+  rewrite (rebase_outside p q a r Hp Hq). destruct (path_eqb a r); [reflexivity | exact IH].
+Qed.
+(* and what was at p ++ t is found at q ++ t, when nothing was below q before *)
+Lemma lookup_move_inside fs p q t : (forall e, In e fs -> is_prefix q (fst e) = false) ->
+  lookup (move_tree fs p q) (q ++ t) = lookup fs (p ++ t).
+Proof.
+  intros Hno. induction fs as [|[a f] r IH]; cbn; [reflexivity|].
+  assert (Ha : is_prefix q a = false) by (apply (Hno (a, f)); left; reflexivity).
+  assert (E : path_eqb (rebase p q a) (q ++ t) = path_eqb a (p ++ t)).
+  { unfold rebase. destruct (is_prefix p a) eqn:Ea.
+    - rewrite (is_prefix_split p a Ea) at 2. rewrite !path_eqb_app. reflexivity.
+    - rewrite (path_eqb_neq a (q ++ t)) by (intros ->; rewrite is_prefix_app in Ha; discriminate).
+      rewrite (path_eqb_neq a (p ++ t)) by (intros ->; rewrite is_prefix_app in Ea; discriminate). reflexivity. }
+  rewrite E. destruct (path_eqb a (p ++ t)); [reflexivity|]. apply IH. intros e He. apply Hno. right. exact He.
+Qed.
+Lemma existsb_prefix_false fs q : existsb (fun e => is_prefix q (fst e)) fs = false -> forall e : pathT * file, In e fs -> is_prefix q (fst e) = false.
+Proof.
+  intros H e He. destruct (is_prefix q (fst e)) eqn:E; [|reflexivity].
+  assert (X : existsb (fun e => is_prefix q (fst e)) fs = true) by (apply existsb_exists; exists e; split; assumption). congruence.
+Qed.
+Lemma lookup_some_prefix fs q : lookup fs q <> None -> existsb (fun e : pathT * file => is_prefix q (fst e)) fs = true.
+Proof.
+  induction fs as [|[a f] r IH]; cbn; [congruence|]. destruct (path_eqb a q) eqn:E.
+  - intros _. apply path_eqb_eq in E. subst. rewrite is_prefix_refl. reflexivity.
+  - intros H. rewrite (IH H). apply orb_true_r.
+Qed.
+
 (* what a user can observe of a file through get / catalog *)
 Definition view (f : file) : bool * list N * bool := (f_isdir f, f_chunks f, f_locked f).
 Definition vlookup (s : st) (q : pathT) : option (bool * list N * bool) := option_map view (lookup (files s) q).
@@ -112,7 +164,7 @@ Proof.
   - destruct (lookup (files s) p) as [f|]; [|reflexivity].
     destruct (f_locked f); [reflexivity|]. destruct (andb _ _); [reflexivity | discriminate].
   - destruct (lookup (files s) p) as [f|]; [|reflexivity].
-    destruct (f_locked f); [reflexivity|]. destruct (f_isdir f); [reflexivity|].
+    destruct (f_locked f); [reflexivity|]. destruct (f_isdir f); [destruct (existsb _ _); [reflexivity | discriminate]|].
     destruct (lookup (files s) (parent p ++ [n])); [reflexivity | discriminate].
   - destruct (lookup (files s) p) as [f|]; [|reflexivity]. destruct (p_lock pr); [discriminate | reflexivity].
   - destruct (lookup (files s) p) as [f|]; [|reflexivity]. destruct (p_lock pr); [discriminate | reflexivity].
@@ -127,12 +179,16 @@ Qed.
 
 (* C02 (observational frame): an operation on path p, accepted or refused, leaves every other path as it was;
    for an accepted rename the new name is the only other path that changes *)
+Definition outside_tree (s : st) (o : op) (q : pathT) : Prop :=
+  forall p n f, o = Rename p n -> lookup (files s) p = Some f -> f_isdir f = true ->
+    is_prefix p q = false /\ is_prefix (parent p ++ [n]) q = false.
 Theorem frame pr s o q :
   path_eqb (target o) q = false ->
   (forall p n, o = Rename p n -> path_eqb (parent p ++ [n]) q = false) ->
+  outside_tree s o q ->
   vlookup (fst (step pr s o)) q = vlookup s q.
 Proof.
-  intros Hq Hren.
+  intros Hq Hren Hout.
   destruct (snd (step pr s o)) eqn:Er; [|apply refused_unchanged, Er].
   destruct o as [p idx|p|p n|p|p|p]; cbn [step target] in *.
   - destruct p as [|x p']; [reflexivity|]. destruct idx as [|i idx']; [reflexivity|].
@@ -147,8 +203,10 @@ Proof.
   - destruct (lookup (files s) p) as [f|]; [|reflexivity].
     destruct (f_locked f); [reflexivity|]. destruct (andb _ _); [reflexivity|]. cbn [fst].
     unfold vlookup. cbn [files]. rewrite lookup_remove_other by exact Hq. reflexivity.
-  - destruct (lookup (files s) p) as [f|]; [|reflexivity].
-    destruct (f_locked f); [reflexivity|]. destruct (f_isdir f); [reflexivity|].
+  - destruct (lookup (files s) p) as [f|] eqn:El; [|reflexivity].
+    destruct (f_locked f); [reflexivity|]. destruct (f_isdir f) eqn:Ed.
+    { destruct (existsb _ _); [reflexivity|]. cbn [fst]. destruct (Hout p n f eq_refl El Ed) as [H1 H2].
+      unfold vlookup. cbn [files]. rewrite lookup_move_outside by assumption. reflexivity. }
     destruct (lookup (files s) (parent p ++ [n])); [reflexivity|]. cbn [fst].
     unfold vlookup. cbn [files lookup]. rewrite (Hren p n eq_refl). rewrite lookup_remove_other by exact Hq. reflexivity.
   - destruct (lookup (files s) p) as [f|]; [|reflexivity]. destruct (p_lock pr); [|reflexivity]. cbn [fst].
@@ -185,12 +243,13 @@ Qed.
 
 (* and it stays readable, unchanged, under every later history that does not target it (C01 + C02 over histories) *)
 Definition untouched (p : pathT) (o : op) : Prop :=
-  path_eqb (target o) p = false /\ (forall q n, o = Rename q n -> path_eqb (parent q ++ [n]) p = false).
+  path_eqb (target o) p = false /\
+  (forall q n, o = Rename q n -> path_eqb (parent q ++ [n]) p = false /\ is_prefix q p = false /\ is_prefix (parent q ++ [n]) p = false).
 Theorem get_stable pr ops : forall s p, Forall (untouched p) ops -> vlookup (run pr s ops) p = vlookup s p.
 Proof.
   induction ops as [|o r IH]; intros s p H; [reflexivity|].
   inversion H as [|? ? [H1 H2] H3]; subst. unfold run. cbn [fold_left]. fold (run pr (fst (step pr s o)) r).
-  rewrite IH by exact H3. apply frame; assumption.
+  rewrite IH by exact H3. apply frame; [exact H1 | intros q n E; apply (H2 q n E) | intros q n f E _ _; apply (H2 q n E)].
 Qed.
 
 (* C05: names are unique, and the listing changes exactly as the history says *)
@@ -233,6 +292,31 @@ Proof.
   destruct (pick_first pr (used s) 1); [|discriminate]. inversion H; subst. cbn [files]. apply lookup_update_none, Hn.
 Qed.
 
+Lemma rebase_inj p q a b : is_prefix q a = false -> is_prefix q b = false -> rebase p q a = rebase p q b -> a = b.
+Proof.
+  unfold rebase. intros Ha Hb. destruct (is_prefix p a) eqn:Ea; destruct (is_prefix p b) eqn:Eb; intros E.
+  - apply app_inv_head in E. rewrite (is_prefix_split p a Ea), (is_prefix_split p b Eb), E. reflexivity.
+  - rewrite <- E, is_prefix_app in Hb. discriminate.
+  - rewrite E, is_prefix_app in Ha. discriminate.
+  - exact E.
+Qed.
+Lemma lookup_move_none fs p q a : (forall e, In e fs -> is_prefix q (fst e) = false) -> is_prefix q a = false ->
+  lookup fs a = None -> lookup (move_tree fs p q) (rebase p q a) = None.
+Proof.
+  intros Hno Ha. induction fs as [|[b f] r IH]; cbn; [reflexivity|].
+  destruct (path_eqb b a) eqn:E; [discriminate|]. intros Hl.
+  assert (Hb : is_prefix q b = false) by (apply (Hno (b, f)); left; reflexivity).
+  rewrite path_eqb_neq.
+  - apply IH; [intros e He; apply Hno; right; exact He | exact Hl].
+  - intros X. apply (rebase_inj p q b a Hb Ha) in X. subst. rewrite path_eqb_refl in E. discriminate.
+Qed.
+Lemma uniq_move fs p q : (forall e, In e fs -> is_prefix q (fst e) = false) -> uniq fs -> uniq (move_tree fs p q).
+Proof.
+  intros Hno Hu. induction Hu as [|a f r Hn Hu IH]; cbn; [constructor|]. constructor.
+  - apply lookup_move_none; [intros e He; apply Hno; right; exact He | apply (Hno (a, f)); left; reflexivity | exact Hn].
+  - apply IH. intros e He. apply Hno. right. exact He.
+Qed.
+
 Theorem names_unique pr s o : uniq (files s) -> uniq (files (fst (step pr s o))).
 Proof.
   intros Hu. destruct o as [p idx|p|p n|p|p|p]; cbn [step].
@@ -246,7 +330,9 @@ Proof.
   - destruct (lookup (files s) p) as [f|]; [|exact Hu]. destruct (f_locked f); [exact Hu|].
     destruct (andb _ _); [exact Hu|]. cbn [fst files]. apply uniq_remove, Hu.
   - destruct (lookup (files s) p) as [f|]; [|exact Hu]. destruct (f_locked f); [exact Hu|].
-    destruct (f_isdir f); [exact Hu|]. destruct (lookup (files s) (parent p ++ [n])) eqn:El; [exact Hu|].
+    destruct (f_isdir f).
+    { destruct (existsb _ _) eqn:Ex; [exact Hu|]. cbn [fst files]. apply uniq_move; [apply existsb_prefix_false, Ex | exact Hu]. }
+    destruct (lookup (files s) (parent p ++ [n])) eqn:El; [exact Hu|].
     cbn [fst files]. constructor; [apply lookup_remove_none, El | apply uniq_remove, Hu].
   - destruct (lookup (files s) p) as [f|]; [|exact Hu]. destruct (p_lock pr); [|exact Hu]. cbn [fst files]. apply uniq_update, Hu.
   - destruct (lookup (files s) p) as [f|]; [|exact Hu]. destruct (p_lock pr); [|exact Hu]. cbn [fst files]. apply uniq_update, Hu.
@@ -267,7 +353,7 @@ Qed.
 Theorem rename_onto_refused pr s p n : lookup (files s) (parent p ++ [n]) <> None -> snd (step pr s (Rename p n)) = Refused.
 Proof.
   intros H. cbn [step]. destruct (lookup (files s) p) as [f|]; [|reflexivity].
-  destruct (f_locked f); [reflexivity|]. destruct (f_isdir f); [reflexivity|].
+  destruct (f_locked f); [reflexivity|]. destruct (f_isdir f); [rewrite (lookup_some_prefix _ _ H); reflexivity|].
   destruct (lookup (files s) (parent p ++ [n])); [reflexivity | congruence].
 Qed.
 (* after an accepted delete the path cannot be fetched any more; after an accepted rename it is found under the new name *)
@@ -280,8 +366,20 @@ Theorem rename_moves pr s p n : snd (step pr s (Rename p n)) = Accepted ->
   vlookup (fst (step pr s (Rename p n))) (parent p ++ [n]) = vlookup s p.
 Proof.
   cbn [step]. destruct (lookup (files s) p) as [f|] eqn:El; [|discriminate]. destruct (f_locked f); [discriminate|].
-  destruct (f_isdir f); [discriminate|]. destruct (lookup (files s) (parent p ++ [n])); [discriminate|].
+  destruct (f_isdir f).
+  { destruct (existsb _ _) eqn:Ex; [discriminate|]. intros _. cbn [fst]. unfold vlookup. cbn [files].
+    pose proof (lookup_move_inside (files s) p (parent p ++ [n]) [] (existsb_prefix_false _ _ Ex)) as H.
+    rewrite !app_nil_r in H. rewrite H. reflexivity. }
+  destruct (lookup (files s) (parent p ++ [n])); [discriminate|].
   intros _. cbn [fst]. unfold vlookup. cbn [files lookup]. rewrite path_eqb_refl. rewrite El. reflexivity.
+Qed.
+(* a renamed directory takes everything below it along: what was at p/t is at the new name/t, unchanged *)
+Theorem rename_moves_tree pr s p n f : lookup (files s) p = Some f -> f_isdir f = true -> snd (step pr s (Rename p n)) = Accepted ->
+  forall t, vlookup (fst (step pr s (Rename p n))) ((parent p ++ [n]) ++ t) = vlookup s (p ++ t).
+Proof.
+  intros El Ed. cbn [step]. rewrite El. destruct (f_locked f); [discriminate|]. rewrite Ed.
+  destruct (existsb _ _) eqn:Ex; [discriminate|]. intros _ t. cbn [fst]. unfold vlookup. cbn [files].
+  rewrite (lookup_move_inside (files s) p (parent p ++ [n]) t (existsb_prefix_false _ _ Ex)). reflexivity.
 Qed.
 
 (* ---------- C19: protection ---------- *)
@@ -497,6 +595,9 @@ Proof.
   - cbn. f_equal. apply IH; assumption.
 Qed.
 
+Lemma owned_move fs p q : flat_map (fun e => f_owned (snd e)) (move_tree fs p q) = flat_map (fun e => f_owned (snd e)) fs.
+Proof. unfold move_tree. induction fs as [|[a f] r IH]; cbn [map flat_map fst snd]; [reflexivity|]. rewrite IH. reflexivity. Qed.
+
 Lemma ensure_slot_wf pr sys s d n s1 : uniq (files s) -> WF pr sys s -> ensure_slot pr s d n = Some s1 -> WF pr sys s1.
 Proof.
   intros Hu W. unfold ensure_slot. destruct (N.leb _ _); [intros H; inversion H; subst; exact W|].
@@ -555,7 +656,9 @@ Proof.
         split; [tauto|]. intros Hf. apply (W3 b); [|exact Hs]. apply (owned_remove_split (files s) p f Hu El W1 b). tauto.
     + intros b Hb. apply W3. apply owned_remove_incl in Hb. exact Hb.
     + intros b Hb. apply W4. apply owned_remove_incl in Hb. exact Hb.
-  - destruct (lookup (files s) p) as [f|] eqn:El; [|exact W]. destruct (f_locked f); [exact W|]. destruct (f_isdir f); [exact W|].
+  - destruct (lookup (files s) p) as [f|] eqn:El; [|exact W]. destruct (f_locked f); [exact W|]. destruct (f_isdir f).
+    { destruct (existsb _ _); [exact W|]. cbn [fst]. destruct W as [W1 W2 W3 W4].
+      constructor; unfold owned_all in *; cbn [files used]; rewrite owned_move; assumption. }
     destruct (lookup (files s) (parent p ++ [n])); [exact W|]. cbn [fst].
     destruct W as [W1 W2 W3 W4].
     assert (Hsplit := owned_remove_split (files s) p f Hu El W1).
